@@ -529,6 +529,55 @@ fn sw_layer_doors(a: &mut Acc, b: &[u8]) {
     }
 }
 
+/// `==` on decoded values is part of the observable result: it depends on the bytes only, not on where they are (C01) — the same
+/// bytes at another address give an equal value, and two values that render differently are not equal just because they start at the
+/// same address
+fn sw_equality(a: &mut Acc, b: &[u8]) {
+    let copy: Vec<u8> = b.to_vec();
+    let shorter = &b[..b.len().saturating_sub(1)];
+    macro_rules! eqp {
+        ($name:expr, $f:expr) => {{
+            let x = $f(b);
+            let y = $f(&copy[..]);
+            if let (Ok(x), Ok(y)) = (&x, &y) {
+                if x != y { a.flag(concat!("c01.eq_depends_on_location:", $name)); }
+            }
+            let z = $f(shorter);
+            if let (Ok(x), Ok(z)) = (&x, &z) {
+                if format!("{:?}", x) != format!("{:?}", z) && x == z { a.flag(concat!("c01.eq_ignores_contents:", $name)); }
+            }
+        }};
+    }
+    eqp!("Ethernet2Slice", Ethernet2Slice::from_slice_without_fcs);
+    eqp!("Ethernet2HeaderSlice", Ethernet2HeaderSlice::from_slice);
+    eqp!("LinuxSllSlice", LinuxSllSlice::from_slice);
+    eqp!("LinuxSllHeaderSlice", LinuxSllHeaderSlice::from_slice);
+    eqp!("SingleVlanSlice", SingleVlanSlice::from_slice);
+    eqp!("SingleVlanHeaderSlice", SingleVlanHeaderSlice::from_slice);
+    eqp!("MacsecSlice", MacsecSlice::from_slice);
+    eqp!("MacsecHeaderSlice", MacsecHeaderSlice::from_slice);
+    eqp!("ArpPacketSlice", ArpPacketSlice::from_slice);
+    eqp!("Ipv4Slice", Ipv4Slice::from_slice);
+    eqp!("Ipv4HeaderSlice", Ipv4HeaderSlice::from_slice);
+    eqp!("Ipv6Slice", Ipv6Slice::from_slice);
+    eqp!("Ipv6HeaderSlice", Ipv6HeaderSlice::from_slice);
+    eqp!("IpSlice", IpSlice::from_slice);
+    eqp!("LaxIpSlice", |s| LaxIpSlice::from_slice(s).map(|t| t.0));
+    eqp!("IpAuthHeaderSlice", IpAuthHeaderSlice::from_slice);
+    eqp!("Ipv6FragmentHeaderSlice", Ipv6FragmentHeaderSlice::from_slice);
+    eqp!("Ipv6RawExtHeaderSlice", Ipv6RawExtHeaderSlice::from_slice);
+    eqp!("UdpSlice", UdpSlice::from_slice);
+    eqp!("UdpHeaderSlice", UdpHeaderSlice::from_slice);
+    eqp!("TcpSlice", TcpSlice::from_slice);
+    eqp!("TcpHeaderSlice", TcpHeaderSlice::from_slice);
+    eqp!("Icmpv4Slice", Icmpv4Slice::from_slice);
+    eqp!("Icmpv6Slice", Icmpv6Slice::from_slice);
+    eqp!("SlicedPacket::from_ethernet", SlicedPacket::from_ethernet);
+    eqp!("SlicedPacket::from_ip", SlicedPacket::from_ip);
+    eqp!("LaxSlicedPacket::from_ethernet", LaxSlicedPacket::from_ethernet);
+    eqp!("LaxSlicedPacket::from_ip", LaxSlicedPacket::from_ip);
+}
+
 /// deprecated aliases and helper predicates
 #[allow(deprecated)]
 fn sw_aliases(a: &mut Acc, b: &[u8]) {
@@ -637,7 +686,7 @@ pub fn sweep(ctx: &Ctx, which: &str, b: &[u8]) -> (i64, u64, Vec<String>) {
     match which {
         "link" => sw_link(&mut a, b),
         "net" => sw_net(&mut a, b),
-        "packet" => { sw_packet(&mut a, b); sw_aliases(&mut a, b); sw_layer_doors(&mut a, b); }
+        "packet" => { sw_packet(&mut a, b); sw_aliases(&mut a, b); sw_layer_doors(&mut a, b); sw_equality(&mut a, b); }
         _ => sw_transport(&mut a, b),
     }
     a.finish()
